@@ -294,3 +294,82 @@ Theorem C08_reach_closed_under_with_editor :
     Reach the_cfg o (after s (with_editor the_cfg s fails es)).
 Proof. exact (reach_with_editor the_cfg). Qed.
 Print Assumptions C08_reach_closed_under_with_editor.
+
+(* ================================================================== the size behind the 65535-byte guard is a size in BYTES
+   resolve_edits keeps a running size `cur_len` and InputBuffer::commit compares what it returns with REALLY_MAX_LENGTH;
+   the u16 byte offsets of ResultNode are valid only because that size is the TRUE byte length of the rewritten text.
+   For EVERY batch of ordered edits on character boundaries, whatever the replacement texts are (the model's e_w is the
+   UTF-8 encoding of the replacement: 1..4 bytes for ReplaceTgt::Char, any length for Str / Ref):
+     - an accepted batch reports exactly the byte length of the rewritten text, = old length + sum of the byte deltas;
+     - a rejected batch reports the byte length reached after the edits seen so far, and that is over the limit.
+   The fact obligation below ties the three match arms of resolve_edits, add_replace and commit to that unit. *)
+From Coq Require Import ZArith String.
+From Coq Require Import List.
+Local Close Scope string_scope.
+Theorem C08_reported_size_is_byte_length :
+  forall src smap edits t m l,
+    length smap = length src + 1 -> wf_text src = true -> edits_ok src edits = true ->
+    resolve the_cfg src smap edits 0 (Z.of_nat (length src)) = ROk t m l ->
+    l = Z.of_nat (length t) /\ l = (Z.of_nat (length src) + delta_bytes edits)%Z.
+Proof. exact (resolve_reports_byte_length the_cfg C08_facts_ok). Qed.
+Print Assumptions C08_reported_size_is_byte_length.
+
+Theorem C08_rejected_size_is_byte_length :
+  forall src smap edits start cl l,
+    resolve the_cfg src smap edits start cl = RTooLong l ->
+    exists es1 e es2, edits = es1 ++ e :: es2 /\ l = (cl + delta_bytes (es1 ++ [e]))%Z /\
+                      cmp_eval (c_resolve_cmp the_cfg) l (Z.of_N (c_resolve_limit the_cfg)) = true.
+Proof. exact (resolve_too_long_is_byte_length the_cfg). Qed.
+Print Assumptions C08_rejected_size_is_byte_length.
+
+(* edit.rs / mod.rs as read on this run: every kind of replacement text (Str, Ref, Char) goes through add_replace as a &str
+   of that text, add_replace answers with.len() - what.len() (byte lengths), and commit compares the RETURNED size (after
+   an early return the target holds only a prefix of the rewritten text) *)
+Fact C08_fact_sizes_in_bytes :
+  SudachiVerif.Generated.BufferFacts.resolve_arm_units = [("Str", "bytes"); ("Ref", "bytes"); ("Char", "bytes")]%string /\
+  SudachiVerif.Generated.BufferFacts.repl_delta_unit = "bytes"%string /\
+  SudachiVerif.Generated.BufferFacts.commit_size_source = "returned_by_resolve_edits"%string.
+Proof. vm_compute. repeat split; reflexivity. Qed.
+
+(* ================================================================== results of a REUSED tokenizer belong to their own text
+   (Model/TokResult.v, Proofs/TokResultProofs.v).  A morpheme's offsets are those of a ResultNode read through the input
+   buffer of the list that holds it; they describe the text only if the node was produced from that text.  The tokenizer
+   recycles one vector (top_path) for its results: reset() clears it, resolve_best_path takes it and pushes the nodes of the
+   new analysis onto it, swap_result / collect_results / into_morpheme_list hand it over, and a result may never be taken.
+   For EVERY session -- any number of rounds (reset + text k, do_tokenize with any outcome, result taken by collect_results,
+   by swap_result with ANY vector of the caller, by into_morpheme_list, or not at all), from ANY state -- every delivered
+   list is the path of the text it is delivered for (empty when the normalised text is empty or the analysis failed before
+   resolve_best_path): no node of an earlier analysis, whichever way earlier results were or were not taken. *)
+From SudachiVerif Require Import Model.TokResult Proofs.TokResultProofs.
+
+Fact C08_result_facts_ok : rcfg_ok the_rcfg = true.
+Proof. vm_compute. reflexivity. Qed.
+
+Theorem C08_reset_leaves_empty_top_path :
+  forall (A : Type) (s : st A) (k : N),
+    top A (do_reset A the_rcfg s k) = Some [] /\ txt A (do_reset A the_rcfg s k) = k.
+Proof. exact (fun A => reset_leaves_empty_top_path A the_rcfg C08_result_facts_ok). Qed.
+Print Assumptions C08_reset_leaves_empty_top_path.
+
+Theorem C08_session_delivers_own_paths :
+  forall (A : Type) (path : N -> list A) (rs : list (round A)) (s : st A),
+    run A path the_rcfg s rs = spec_run A path rs.
+Proof. exact (fun A path => session_delivers_own_paths A path the_rcfg C08_result_facts_ok). Qed.
+Print Assumptions C08_session_delivers_own_paths.
+
+Theorem C08_delivered_nodes_belong_to_their_text :
+  forall (A : Type) (path : N -> list A) (rs : list (round A)) (s : st A) (k : N) (ns : list A),
+    In (RList k ns) (run A path the_rcfg s rs) -> ns = path k \/ ns = [].
+Proof. exact (fun A path => delivered_nodes_belong_to_their_text A path the_rcfg C08_result_facts_ok). Qed.
+Print Assumptions C08_delivered_nodes_belong_to_their_text.
+
+(* stateful_tokenizer.rs / mlist.rs as read on this run: reset clears top_path and re-creates it when it is None;
+   resolve_best_path pushes one node per path element onto the vector it took (or a new one) and returns it; do_tokenize
+   returns on an empty text before touching top_path and ASSIGNS the finished path; swap_result swaps input and vector;
+   into_morpheme_list moves top_path and the input; collect_results is swap_result with the list's own parts *)
+Fact C08_fact_result_handover :
+  SudachiVerif.Generated.ResultFacts.reset_top_path = "clear_or_recreate"%string /\
+  SudachiVerif.Generated.ResultFacts.do_tokenize_stores = "assign"%string /\
+  SudachiVerif.Generated.ResultFacts.into_list_shape = "moves_top_path_and_input"%string /\
+  SudachiVerif.Generated.ResultFacts.collect_is_swap_with_own_parts = true.
+Proof. vm_compute. repeat split; reflexivity. Qed.
